@@ -7,7 +7,7 @@ LEAN_MODULES = ["RtoscModel.Props.C18"]
 THEOREMS = ["Rtosc.Path.collapse_eq_spec", "Rtosc.Path.collapse_in_place",
             "Rtosc.Path.apropos_of_walked", "Rtosc.Path.apropos_of_walked_local", "Rtosc.Path.index_spec",
             "Rtosc.Path.search_children", "Rtosc.Path.search_sorted", "Rtosc.Path.search_unique_prefix",
-            "Rtosc.Path.search_reply_wf"]
+            "Rtosc.Path.search_reply_wf", "Rtosc.Path.sort_result_unique"]
 HARNESS = {"src": ["path.cpp"]}
 RULE = ("collapse: every absolute path of 1..8 distinct components with '..' at every subset of positions, with and "
         "without trailing '/', plus random paths over the components a bc foo . ... ..x x.. <empty> .. (and a small "
